@@ -209,8 +209,60 @@ def make_replay(which):
 def harnesses(tier, seed):
     hs = _harnesses(tier, seed)
     for h in hs:
-        h.replay = make_replay('setnum' if 'SetNum' in h.name else 'repeat' if 'CleanUp' in h.name else 'graph')
+        h.replay = make_replay('setnum' if 'SetNum' in h.name else 'repeat' if 'CleanUp' in h.name else 'links' if 'AddEntry' in h.name else 'graph')
     return hs
+
+
+VL = 'include/mp/valcvt-link.h'
+VN = 'include/mp/valcvt-node.h'
+VB = 'include/mp/valcvt-base.h'
+
+
+def h_addentry():
+    """Many2ManyLink::AddEntry (base of One2ManyLink / Many2OneLink): after adding the entry (src range, target range) the set of linked
+    (source position, target position) pairs is exactly the old set plus the pairs of the new entry - merging into the last entry never links
+    a position of one item with the image of another.  Real NodeRange::{operator==, ExtendableBy, TryExtendBy, ExtendBy} and IndexRange::operator==;
+    the deque is seen through its last entry (the only one AddEntry touches) and the entry pushed; arbitrary witness pair (ws, wt)."""
+    SELF = [(r'(?<![\.\w>])pvn_', 'self->pvn_', -1), (r'(?<![\.\w>])ir_', 'self->ir_', -1)]
+    IN = lambda e: ('(g_ws_node == %s.first.pvn_ && %s.first.ir_.beg_ <= g_ws && g_ws < %s.first.ir_.end_ && '
+                    'g_wt_node == %s.second.pvn_ && %s.second.ir_.beg_ <= g_wt && g_wt < %s.second.ir_.end_)' % ((e,) * 6))
+    parts = ['#include "mp_shim.h"\nint vp_one;\n#define assert(x) __CPROVER_assert(x, "assert(" #x ") of the source holds")\n', '''
+typedef struct { int beg_, end_; } IndexRange;
+typedef struct { int pvn_; IndexRange ir_; } NodeRange;          /* pvn_: the value node (identity only) */
+typedef struct { NodeRange first, second; } LinkEntry;
+_Bool g_has_last; LinkEntry g_last, g_pushed; int g_npushed;      /* entries_: its last entry and what is pushed */
+LinkEntry g_last0;                                                /* the last entry before the call */
+#define VP_SAME_NR(a, b) ((a).pvn_ == (b).pvn_ && (a).ir_.beg_ == (b).ir_.beg_ && (a).ir_.end_ == (b).ir_.end_)
+int g_ws_node, g_ws, g_wt_node, g_wt;                             /* witness pair: a source position and a target position */
+static void vp_push_back(LinkEntry e) { g_pushed = e; g_npushed++; }
+static void RegisterLinkIndex(int i) { }
+#define VP_VALID(e) ((e).first.ir_.beg_ <= (e).first.ir_.end_ && (e).second.ir_.beg_ <= (e).second.ir_.end_)
+''',
+             Fn(VB, r'bool operator==\(const IndexRange& ir\) const', '_Bool IR_eq(const IndexRange *self, IndexRange ir)',
+                subst=[(r'(?<![\.\w>])beg_', 'self->beg_', 1), (r'(?<![\.\w>])end_', 'self->end_', 1)], label='mp::pre::IndexRange::operator==', nmatches=1),
+             Fn(VN, r'bool operator==\(const NodeRange& nr\) const', '_Bool NR_eq(const NodeRange *self, NodeRange nr)',
+                subst=SELF + [(r'self->ir_ == nr\.ir_', 'IR_eq(&self->ir_, nr.ir_)', 1)], label='mp::pre::NodeRange::operator==', nmatches=1),
+             Fn(VN, r'bool ExtendableBy\(NodeRange nr\) const', '_Bool ExtendableBy(const NodeRange *self, NodeRange nr)', subst=SELF, label='mp::pre::NodeRange::ExtendableBy', nmatches=1),
+             Fn(VN, r'void ExtendBy\(NodeRange nr\)', 'void ExtendBy(NodeRange *self, NodeRange nr)',
+                subst=SELF + [(r'ExtendableBy\(nr\)', 'ExtendableBy(self, nr)', 1)], label='mp::pre::NodeRange::ExtendBy', nmatches=1),
+             Fn(VN, r'bool TryExtendBy\(NodeRange nr\)', '_Bool TryExtendBy(NodeRange *self, NodeRange nr)',
+                subst=[(r'ExtendableBy\(nr\)', 'ExtendableBy(self, nr)', 1), (r'ExtendBy\(nr\);', 'ExtendBy(self, nr);', 1)], label='mp::pre::NodeRange::TryExtendBy', nmatches=1),
+             Fn(VL, r'void AddEntry\(LinkEntry be\) \{\s*if \(entries_\.empty\(\) \|\|\s*!\(', 'void AddEntry(LinkEntry be)',
+                contract='__CPROVER_requires(VP_VALID(be) && (!g_has_last || VP_VALID(g_last)) && g_npushed == 0 && VP_SAME_NR(g_last0.first, g_last.first) && VP_SAME_NR(g_last0.second, g_last.second)) '
+                         '__CPROVER_ensures(((g_has_last && %s) || (g_npushed == 1 && %s)) == ((g_has_last && %s) || %s)) '
+                         '__CPROVER_ensures(g_npushed <= 1 && (!g_has_last ==> g_npushed == 1)) '
+                         '__CPROVER_assigns(g_last, g_pushed, g_npushed)' % (IN('g_last'), IN('g_pushed'), IN('g_last0'), IN('be')),
+                subst=[(r'entries_\.empty\(\)', '!g_has_last', 1),
+                       (r'entries_\.back\(\)\.(first|second)==be\.(first|second)', r'NR_eq(&g_last.\1, be.\2)', 2),
+                       (r'entries_\.back\(\)\.(first|second)\.TryExtendBy\(be\.(first|second)\)', r'TryExtendBy(&g_last.\1, be.\2)', 2),
+                       (r'entries_\.push_back\(be\);', 'vp_push_back(be);', 1), (r'entries_\.size\(\)-1', 'g_npushed', 1)],
+                label='mp::pre::Many2ManyLink::AddEntry', nmatches=1), '''
+void harness(void) { vp_one = 1; g_has_last = nondet_bool(); g_npushed = 0; LinkEntry be;
+  g_ws_node = nondet_int(); g_ws = nondet_int(); g_wt_node = nondet_int(); g_wt = nondet_int();
+  AddEntry(be); VP_REACH("normal return"); }
+''']
+    return Harness('C04.Many2ManyLink.AddEntry', 'C04', parts, enforce='AddEntry',
+                   stubs=['std::deque entries_ (its last entry and the entry pushed; the others are not touched)', 'BasicLink::RegisterLinkIndex (no-op)'])
 
 
 VEC = '''
@@ -246,5 +298,5 @@ void harness(void) { vp_one = 1; g_w = nondet_size_t(); g_size = nondet_size_t()
 def _harnesses(tier, seed):
     hs = [h_setnum('int'), h_setnum('double'), h_setnum_order('int'), h_setnum_order('double'), h_reverse()]
     hs += [h_entry(n) for n in ENTRIES]
-    hs += [h_cleanup(False), h_cleanup(True)]
+    hs += [h_cleanup(False), h_cleanup(True), h_addentry()]
     return hs
